@@ -50,7 +50,7 @@ class C20(object):
                 # the block language offers every name of the math module (Lipschitz constants <= 0.05)
                 a, b_ = rng.choice(xs), rng.choice(xs)
                 s['nl'] = rng.choice(['0.05*tanh({a})', '0.05*log1p(abs({a}))', '0.05*atan2({a}, 1.0 + abs({b}))',
-                                      '0.05*hypot({a}, 1.0)/(1.0 + abs({a}))', '0.05*sinh(0.1*{a})/(1 + {a}*{a})',
+                                      '0.05*hypot({a}, 1.0)/(1.0 + abs({a}))', '0.05*asinh(0.1*{a})/(1 + {a}*{a})',
                                       '0.05*erf({a})', '0.05*expm1(-abs({a}))', '0.02*fabs({a}) + 0.01*degrees(0.1)',
                                       '0.05*copysign(1.0, {a})*log2(1 + abs({a}))/(1 + abs({a}))']).format(a=a, b=b_)
         for c in spec['consts']:
